@@ -19,6 +19,31 @@ from ..format import Format
 odmlns = Format.namespace()
 
 
+def sparql_str(value):
+    """
+    Returns a value as escaped content of a double quoted SPARQL string literal.
+    """
+    value = str(value)
+    for char, esc in [("\\", "\\\\"), ("\"", "\\\""), ("\n", "\\n"), ("\r", "\\r")]:
+        value = value.replace(char, esc)
+    return value
+
+
+def attribute_pattern(var, fmt, attr, value):
+    """
+    Returns the SPARQL pattern that restricts the query variable 'var' to the nodes
+    which carry 'value' as content of the odML attribute 'attr'.
+
+    :param var: name of the query variable.
+    :param fmt: odml.format object of the queried odML entity.
+    :param attr: name of the odML attribute.
+    :param value: requested content of the attribute.
+    """
+    value = sparql_str(value)
+    pred = re.sub(str(odmlns), "odml:", fmt.rdf_map(attr))
+    return "?{0} {1} \"{2}\" .\n".format(var, pred, value)
+
+
 class BaseQueryCreator:
     """
     An abstract base class for odml specific QueryCreators.
@@ -284,7 +309,6 @@ class QueryCreator(BaseQueryCreator):
         :return: string representing rdflib query.
         """
 
-        odml_uri = str(odmlns)
         self.query = "SELECT * WHERE {\n"
 
         if "Doc" in self.q_dict.keys():
@@ -296,10 +320,7 @@ class QueryCreator(BaseQueryCreator):
                         msg = "Attributes in the query \"{}\" are not valid.".format(i)
                         raise ValueError(msg)
                     else:
-                        attr = Document.rdf_map(i[0])
-                        if attr:
-                            re_sub = re.sub(odml_uri, "odml:", attr)
-                            self.query += "?d {0} \"{1}\" .\n".format(re_sub, i[1])
+                        self.query += attribute_pattern("d", Document, i[0], i[1])
 
         if "Sec" in self.q_dict.keys():
             sec_attrs = self.q_dict["Sec"]
@@ -311,10 +332,7 @@ class QueryCreator(BaseQueryCreator):
                         msg = "Attributes in the query \"{}\" are not valid.".format(i)
                         raise ValueError(msg)
                     else:
-                        attr = Section.rdf_map(i[0])
-                        if attr:
-                            re_sub = re.sub(odml_uri, "odml:", attr)
-                            self.query += "?s {0} \"{1}\" .\n".format(re_sub, i[1])
+                        self.query += attribute_pattern("s", Section, i[0], i[1])
 
         if "Prop" in self.q_dict.keys():
             prop_attrs = self.q_dict["Prop"]
@@ -332,10 +350,7 @@ class QueryCreator(BaseQueryCreator):
                             for val in values:
                                 self.query += "?v rdf:li \"{}\" .\n".format(val)
                     else:
-                        attr = Property.rdf_map(i[0])
-                        if attr:
-                            re_sub = re.sub(odml_uri, "odml:", attr)
-                            self.query += "?p {0} \"{1}\" .\n".format(re_sub, i[1])
+                        self.query += attribute_pattern("p", Property, i[0], i[1])
 
         self.query += "}\n"
         return self.query
